@@ -25,6 +25,7 @@ struct Cfg {
     bool nonsimple_paths = false; // allow non-simple (multi-element / tapered) paths
     bool close_vertices = false;  // allow path vertices exactly one grid step apart
     bool robust_paths = false;
+    bool rings = false;           // rings drawn as one boundary (outer contour, seam, inner contour) even where only simple polygons are wanted
     bool multi_element_simple_paths = false;  // simple FlexPaths with 2-3 parallel elements (one PATH each)
     bool dangling = false;        // references to cells that are not in the library
     bool props = true;
@@ -511,7 +512,7 @@ inline model::MPoly polygon(Ctx& c, bool allow_big) {
         } break;
         default: {
             int n = (int)r.range(3, std::max(3, c.cfg.max_vertices));
-            if (!c.cfg.simple_polys_only && c.cfg.mode == canon::GDS && r.chance(0.12)) {
+            if ((!c.cfg.simple_polys_only || c.cfg.rings) && c.cfg.mode == canon::GDS && r.chance(0.12)) {
                 // a ring drawn as one boundary: outer contour, back to its first vertex, inner contour (the
                 // first vertex occurs in the middle of the list, where a multi-record XY list may be cut)
                 Pt o = point(c);
@@ -519,9 +520,56 @@ inline model::MPoly polygon(Ctx& c, bool allow_big) {
                 o.y = canon::rgrid(o.y) * 10;
                 dg_t w = ongrid(c, 30, 200), h = ongrid(c, 30, 200), t = ongrid(c, 2, 10);
                 std::vector<Pt> outer = {o, Pt{o.x + w, o.y}, Pt{o.x + w, o.y + h}, Pt{o.x, o.y + h}};
-                if (r.chance(0.3)) outer.erase(outer.begin() + 2);                          // triangle
-                else if (r.chance(0.3)) outer.insert(outer.begin() + 2, Pt{o.x + w + t, o.y + h / 20 * 10});  // pentagon
-                std::vector<Pt> inner = {Pt{o.x + t, o.y + t}, Pt{o.x + t, o.y + 2 * t}, Pt{o.x + 2 * t, o.y + 2 * t}, Pt{o.x + 2 * t, o.y + t}};
+                std::vector<Pt> inner;
+                if (r.chance(0.5)) {
+                    // plain variant: small hole next to the first corner
+                    if (r.chance(0.3)) outer.erase(outer.begin() + 2);                          // triangle
+                    else if (r.chance(0.3)) outer.insert(outer.begin() + 2, Pt{o.x + w + t, o.y + h / 20 * 10});  // pentagon
+                    inner = {Pt{o.x + t, o.y + t}, Pt{o.x + t, o.y + 2 * t}, Pt{o.x + 2 * t, o.y + 2 * t}, Pt{o.x + 2 * t, o.y + t}};
+                } else {
+                    // many vertices along the sides and a small hole anywhere inside: under a vertex limit
+                    // the hole tends to end up strictly inside one of the pieces
+                    std::vector<Pt> dense;
+                    int per_side = (int)r.range(0, 6);
+                    for (int side = 0; side < 4; side++) {
+                        Pt a = outer[side], b = outer[(side + 1) % 4];
+                        dense.push_back(a);
+                        dg_t len = (llabs(b.x - a.x) + llabs(b.y - a.y)) / 10;
+                        std::set<dg_t> cuts;
+                        for (int k = 0; k < per_side; k++) cuts.insert(r.range(1, len - 1));
+                        std::vector<dg_t> cs(cuts.begin(), cuts.end());
+                        for (dg_t d : cs) dense.push_back(Pt{a.x + (b.x - a.x) / len * d, a.y + (b.y - a.y) / len * d});
+                    }
+                    outer = dense;
+                    dg_t s2 = ongrid(c, 1, 6);
+                    dg_t hx = o.x + 10 * r.range(1, (w - s2) / 10 - 1), hy = o.y + 10 * r.range(1, (h - s2) / 10 - 1);
+                    inner = {Pt{hx, hy}, Pt{hx, hy + s2}, Pt{hx + s2, hy + s2}, Pt{hx + s2, hy}};
+                    if (r.chance(0.7)) {
+                        // seam along a grid line: from a point of the left side straight to the hole (a slanted
+                        // seam is cut by the slicing lines at off-grid points and opens into a slit)
+                        Pt sp{o.x, hy};
+                        std::vector<Pt> left;  // the left side runs from (o.x, o.y+h) down to o: after the last corner
+                        size_t corner = 0;
+                        for (size_t k = 0; k < outer.size(); k++)
+                            if (outer[k].x == o.x && outer[k].y == o.y + h) corner = k;
+                        std::vector<Pt> rot;
+                        bool placed = false;
+                        for (size_t k = corner + 1; k < outer.size(); k++) {
+                            if (outer[k].y == hy) placed = true;
+                            if (!placed && outer[k].y < hy) {
+                                outer.insert(outer.begin() + (long)k, sp);
+                                placed = true;
+                                break;
+                            }
+                        }
+                        if (!placed) outer.push_back(sp);
+                        size_t at = 0;
+                        for (size_t k = 0; k < outer.size(); k++)
+                            if (outer[k].x == sp.x && outer[k].y == sp.y) at = k;
+                        std::rotate(outer.begin(), outer.begin() + (long)at, outer.end());
+                        o = sp;  // the contour starts and ends at the seam point
+                    }
+                }
                 p.pts = outer;
                 p.pts.push_back(o);
                 for (auto& q : inner) p.pts.push_back(q);
